@@ -65,6 +65,10 @@ SIG_DEFAULT = "reparse:declared-default-not-normalised-by-first-parse"
 SIG_UNION = "text:Union:value-serialised-by-a-member-type-it-does-not-belong-to"
 SIG_OPTNULL = "text:Optional:text-of-a-non-None-value-is-read-as-None"
 SIG_DEFTEXT = "text:value-whose-text-equals-the-declared-default:returned-unconverted"
+SIG_SUBDCF = "text:sub-command-named-by-the-default-config-file-wins-over-the-dumped-one"
+SIG_DKW = "reparse:class-spec:dict_kwargs-of-the-declared-default-merged-into-the-given-ones"
+SIG_NSNAME = "text:argument-named-like-a-Namespace-attribute:config-text-not-run-through-the-type"
+SIG_SETORDER = "reparse:Set:dump-order-follows-the-insertion-history-of-the-set"
 DEPTH = 3
 
 # ---------------------------------------------------------------------------------------------------
@@ -487,14 +491,103 @@ class Node:
         self.mkey = ckey(cfg)  # complete form: values AND metadata (__path__, __default_config__) at every level
         self.text_cwd = text_cwd
         self._dumps = {}
+        self.has_set = _has_set(cfg)
 
     def dump(self, env, fmt):
         from mc.util import outcome
 
         if fmt not in self._dumps:
             env.dumps += 1
-            self._dumps[fmt] = outcome(env.p().dump, dcopy(self.cfg), format=fmt, skip_none=False)
+            # a copy rebuilds the hash table of a set and so erases exactly the insertion history that the dump order
+            # of a set can depend on: states that hold a set are dumped as they were returned
+            arg = self.cfg if self.has_set else dcopy(self.cfg)
+            self._dumps[fmt] = outcome(env.p().dump, arg, format=fmt, skip_none=False)
         return self._dumps[fmt]
+
+
+def _has_set(v):
+    if isinstance(v, (set, frozenset)):
+        return True
+    if isinstance(v, argparse.Namespace):
+        v = vars(v)
+    if isinstance(v, dict):
+        return any(_has_set(x) for x in v.values())
+    if isinstance(v, (list, tuple)):
+        return any(_has_set(x) for x in v)
+    return False
+
+
+def _norm_sets(view, data):
+    """`data` (loaded dump text) with every list that sits where `view` holds a set put in a canonical order."""
+    if isinstance(view, (set, frozenset)) and isinstance(data, list):
+        return sorted(data, key=repr)
+    if isinstance(view, argparse.Namespace):
+        view = vars(view)
+    if isinstance(view, dict) and isinstance(data, dict):
+        byname = {str(k).lstrip("\u200b"): x for k, x in view.items()}
+        return {k: _norm_sets(byname.get(str(k)), x) for k, x in data.items()}
+    if isinstance(view, (list, tuple)) and isinstance(data, list) and len(view) == len(data):
+        return [_norm_sets(a, b) for a, b in zip(view, data)]
+    return data
+
+
+def _set_order_root_cause(root, d0, d1):
+    """The two dump texts differ only in the order of the members of sets."""
+    import yaml
+
+    if not root.has_set or not isinstance(d0, str) or not isinstance(d1, str):
+        return False
+    try:
+        a, b = yaml.safe_load(d0), yaml.safe_load(d1)
+    except Exception:
+        return False
+    return a != b and _norm_sets(root.view, a) == _norm_sets(root.view, b)
+
+
+def _sub_dcf_root_cause(env, root, text):
+    """Sub-command parser with a default config file: True when the same text, read by the same parser while the
+    default config file is absent, gives the root back - i.e. the dump is complete except that it does not say which
+    sub-command was selected, and the default config file fills that gap with ITS sub-command."""
+    if not env.spec.get("dcf") or env.spec["shape"] not in S.SUB_PATHS or text is None or not os.path.exists(S.DCF):
+        return False
+    os.rename(S.DCF, S.DCF + ".away")
+    try:
+        o = _parse_text(env, root, text)
+    finally:
+        os.rename(S.DCF + ".away", S.DCF)
+    return o["kind"] == "ok" and isinstance(o["value"], argparse.Namespace) and ckey(_drop_cfg(_strip(o["value"]))) == root.key_nocfg
+
+
+def _dict_kwargs_root_cause(path, what, vb, baselines):
+    """parse_object adds, below a `dict_kwargs` key, an entry that the declared default holds at the same place."""
+    if what != "key-added" or "dict_kwargs" not in path[:-1] or baselines[0] is None:
+        return False
+    ok, d = lookup(baselines[0], tuple(x for x in path if x != "{member}"))
+    return ok and ckey(d) == ckey(vb)
+
+
+def _namespace_name_root_cause(env, path, a, b):
+    """The top-level key is also an attribute name of the Namespace class and its value is not converted when it comes
+    from a config text / object: the same type, declared for an argument with an ordinary name, turns the value on one
+    side of the edge into the value on the other side (in either direction: the root may be the unconverted one)."""
+    from jsonargparse import Namespace
+    from mc.util import outcome
+
+    if not path or not isinstance(path[0], str) or not hasattr(Namespace, path[0].lstrip("\u200b")):
+        return False
+    ok1, va = lookup(a, path[:1])
+    ok2, vb = lookup(b, path[:1])
+    if not (ok1 and ok2):
+        return False
+    spec2 = {"shape": "flat", "type": env.spec["type"], "default": S.UNSET, "dform": "raw", "mode": env.mode}
+    for src, dst in ((vb, va), (va, vb)):
+        try:
+            o = outcome(S.build_parser(spec2, None, False).parse_object, {"x": dcopy(src)})
+        except Exception:
+            continue
+        if o["kind"] == "ok" and ckey(o["value"].x) == ckey(dst):
+            return True
+    return False
 
 
 def _exc(o):
@@ -876,6 +969,9 @@ def judge(env, root, baselines):
                 add(op, f"metadata-changed:{where}:{mk}:{what}:{cls}",
                     f"config {short(root.cfg)} -> {short(succ.cfg)} (metadata difference at {pstr(path)!r}: {short(va, 80)} -> {short(vb, 80)})")  # fmt: skip
             continue
+        if res == "dump-changed" and _set_order_root_cause(root, r["d0"], r["d1"]):
+            add(op, SIG_SETORDER + ":" + cls, f"{cfgtxt} -> typed-equal config, but {r['fmt']} dump {r['d0']!r} became {r['d1']!r}")
+            continue
         if res == "dump-changed":
             add(op, f"dump-changed:{r['fmt']}:{cls}",
                 f"{cfgtxt} -> typed-equal config, but {r['fmt']} dump {r['d0']!r} became {r['d1']!r}")  # fmt: skip
@@ -884,6 +980,9 @@ def judge(env, root, baselines):
         via = f" via text {r['text']!r}" if r.get("text") is not None else ""
         if op == "json" and _json_nonfinite_root_cause(env, root, r.get("text"), by_op.get("yaml")):
             devs.append((SIG_JSON_NONFINITE, f"{cfgtxt} -> {short(succ.view)}{via}"))
+            continue
+        if op in ("yaml", "json") and _sub_dcf_root_cause(env, root, r.get("text")):
+            add(op, SIG_SUBDCF + ":" + cls, f"{cfgtxt} -> {short(succ.view)}{via}")
             continue
         a, b = (root.view, succ.view) if op in ("object", "dict") else (_drop_cfg(root.view), _drop_cfg(succ.view))
         for path, what, va, vb in all_diffs(a, b):
@@ -894,6 +993,10 @@ def judge(env, root, baselines):
                 add(op, SIG_DEFAULT + ":" + cls, detail)
             elif path[:1] == ("x",) and union_cause(op):
                 add(op, SIG_UNION, detail)
+            elif op in ("object", "dict") and _dict_kwargs_root_cause(path, what, vb, baselines):
+                add(op, SIG_DKW + ":" + cls, detail)
+            elif op in ("yaml", "json") and _namespace_name_root_cause(env, path, a, b):
+                add(op, SIG_NSNAME + ":" + cls, detail)
             elif op in ("yaml", "json") and _optional_null_root_cause(env, root, r.get("text"), path, va, vb):
                 add(op, SIG_OPTNULL, detail)
             elif op in ("yaml", "json") and _declared_default_text_root_cause(env, root, r.get("text"), path, va):
@@ -903,7 +1006,7 @@ def judge(env, root, baselines):
 
     for sig, g in groups.items():
         label = _edge_label(g["ops"], env)
-        if sig.startswith((SIG_DECIMAL, SIG_DEFAULT, SIG_UNION, SIG_DEFTEXT, SIG_OPTNULL)):
+        if sig.startswith((SIG_DECIMAL, SIG_DEFAULT, SIG_UNION, SIG_DEFTEXT, SIG_OPTNULL, SIG_SUBDCF, SIG_DKW, SIG_NSNAME, SIG_SETORDER)):
             devs.append((sig, f"[{label}] {g['detail']}"))
         else:
             devs.append((f"{label}:{sig}", g["detail"]))
@@ -1179,8 +1282,8 @@ def explore(ctx):
             "leaves": S.LEAVES,
             "constructors": ["Optional", "Union", "List", "Sequence", "DictStr", "DictInt", "Mapping", "OrderedDict", "Tuple2", "TupleVar", "Set"],
             "class_like": S.CLASSLIKE + S.DATACLASSES,
-            "shapes": S.SHAPES,
-            "channels": S.CHANNELS + S.EMPTY_CHANNELS + S.FILE_CHANNELS + S.ENV_CHANNELS + ["argv-raw"] + S.NATIVE_CHANNELS + S.OWNFILE_CHANNELS,
+            "shapes": S.shapes(ctx.quick) + (list(S.NAME_SHAPES)[:4] if ctx.quick else list(S.NAME_SHAPES)),
+            "channels": S.CHANNELS + S.EMPTY_CHANNELS + S.FILE_CHANNELS + S.SIBLING_CHANNELS + S.ENV_CHANNELS + ["argv-raw"] + S.NATIVE_CHANNELS + S.OWNFILE_CHANNELS,
             "default_forms": ["raw", "typed (by the library)", "native (Python constructors)"],
             "ambient_environment": "default_env=True parsers with the variable of the target argument and of a sibling set for the whole life of the spec: " + ", ".join(S.AMBIENT_SHAPES),
             "classification_depth": DEPTH,
@@ -1211,10 +1314,10 @@ def explore(ctx):
         return
     missing = sorted(all_types - types_accepting)
     ctx.require(not missing, f"every type of the grammar has an accepted value (without: {missing[:4]})")
-    want_ch = set(S.CHANNELS + S.EMPTY_CHANNELS + S.FILE_CHANNELS + S.ENV_CHANNELS + ["argv-raw"] + S.NATIVE_CHANNELS + S.OWNFILE_CHANNELS)
+    want_ch = set(S.CHANNELS + S.EMPTY_CHANNELS + S.FILE_CHANNELS + S.SIBLING_CHANNELS + S.ENV_CHANNELS + ["argv-raw"] + S.NATIVE_CHANNELS + S.OWNFILE_CHANNELS)
     ctx.require(tot["states_with_nested_metadata"] >= 100, "at least 100 states carry metadata below the top level (values loaded from their own file)")
     ctx.require(tot["states_with_toplevel_metadata"] >= 100, "at least 100 states carry top-level metadata (default config files)")
     ctx.require(tot["ambient_effective"] >= 0.8 * tot["ambient_specs"] > 0, "the ambient environment is a source for at least 80% of the parser specs that declare one")
     ctx.require(tot["states_overriding_ambient"] >= 200, "at least 200 states in which an input overrides (or adds to) what the ambient environment supplies")
     ctx.require(want_ch <= set(channels), f"every channel yields accepted inputs (without: {sorted(want_ch - set(channels))})")
-    ctx.require(set(S.SHAPES) <= set(shapes), f"every parser shape yields states (without: {sorted(set(S.SHAPES) - set(shapes))})")
+    ctx.require(set(S.shapes(ctx.quick)) <= set(shapes), f"every parser shape yields states (without: {sorted(set(S.shapes(ctx.quick)) - set(shapes))})")
